@@ -476,7 +476,9 @@ func (c *ctx) guarded(ws []string, what string, f func() error) (error, *violati
 	case err != nil && (errors.Is(err, syscall.EMFILE) || errors.Is(err, syscall.ENFILE)):
 		return err, &violation{"extraction-leaks-or-hoards-descriptors",
 			what + " ran out of file descriptors (" + err.Error() + "): it keeps descriptors open in proportion to the number of entries"}
-	case before >= 0 && after != before:
+	case before >= 0 && after > before:
+		// (fewer than before is no finding: finalizers of files the harness or an
+		// earlier call dropped may run at any time)
 		return err, &violation{"extraction-leaks-or-hoards-descriptors",
 			fmt.Sprintf("%s returned with %d open file descriptors, %d were open before the call", what, after, before)}
 	}
@@ -729,8 +731,10 @@ func (c *ctx) execTarZip(ws []string) (string, *violation) {
 
 // ---------------------------------------------------------------- generators
 
-var segPool = []string{"a", "b", "c", "dest", "dest2", "sib.txt", "o2", "..", "..", "..", ".", "", "...", "..a", ".h", "x y", "\xc3\xa9", "\xff"}
-var plainPool = []string{"a", "b", "c", "dest", "dest2", "f.txt", "...", "..a", ".h", "x y", "\xc3\xa9", "\xff", "A", "a.b.c", "-", "~"}
+var segPool = []string{"a", "b", "c", "dest", "dest2", "sib.txt", "o2", "..", "..", "..", ".", "", "...", "..a", ".h", "x y", "\xc3\xa9", "\xff",
+	"..\\victim", "a\\b", "..\\..", "\\abs", "C:\\x", "sub\\..\\..\\sib.txt", "\\"}
+var plainPool = []string{"a", "b", "c", "dest", "dest2", "f.txt", "...", "..a", ".h", "x y", "\xc3\xa9", "\xff", "A", "a.b.c", "-", "~",
+	"a\\b.txt", "..\\x", "\\lead", "trail\\", "C:\\x"}
 
 var crafted = []string{
 	"a", "a/b/c", "../evil.txt", "../../evil", "../../../evil", "../../../../evil", "a/../../evil", "a/b/../../../evil",
@@ -738,6 +742,25 @@ var crafted = []string{
 	".", "./", "./.", "././", "./a", "a/.", "a//b", "a/b/", "//a", "", "/", "a/", "../", "../dest2/x", "../dest/../destx",
 	"../sib.txt", "../dest2", "..a/b", ".../x", "a/.../../..", "../dest/ok", "../../sandbox/dest/ok", "dest/../../evil",
 }
+
+// backslash forms: on a /-separated system `\` is an ordinary name byte, so
+// `..\victim` is one plain element; every crafted name also appears with `\`
+// instead of `/`, with mixed separators, and in the drive-letter form.
+func init() {
+	base := append([]string{}, crafted...)
+	for _, n := range base {
+		if strings.Contains(n, "/") {
+			crafted = append(crafted, strings.ReplaceAll(n, "/", "\\"))
+			crafted = append(crafted, strings.Replace(n, "/", "\\", 1))
+		}
+	}
+	crafted = append(crafted, "..\\victim", "sub\\..\\..\\planted", "sub/..\\..\\planted", "\\abs", "C:\\x", "C:\\..\\..\\x", "a\\b.txt",
+		"..\\sib.txt", "..\\dest2\\x", "ok/..\\..\\evil")
+}
+
+// upsAnySep is ups with `\` read as a separator too: how far a careless
+// extractor that normalises separators would climb.
+func upsAnySep(name string) int { return ups(strings.ReplaceAll(name, "\\", "/")) }
 
 // ups counts the levels above the starting directory that the lexical walk
 // of name reaches (0 for a name that stays inside).
@@ -761,6 +784,11 @@ func ups(name string) int {
 
 func classOf(name string) string {
 	switch {
+	case strings.Contains(name, "\\"):
+		if upsAnySep(name) > ups(name) {
+			return "backslash-escaping-if-normalised"
+		}
+		return "backslash"
 	case name == "":
 		return "empty"
 	case strings.HasPrefix(name, "/"):
@@ -817,7 +845,7 @@ func (g *gen) name() string {
 				n += "/"
 			}
 		}
-		if ups(n) <= maxUp && len(n) < 90 {
+		if ups(n) <= maxUp && upsAnySep(n) <= maxUp && len(n) < 90 {
 			return n
 		}
 	}
@@ -881,7 +909,7 @@ func (g *gen) archive(tarKinds bool) []ent {
 					nm = prev
 				}
 			}
-			if ups(nm) > maxUp || len(nm) >= 90 {
+			if ups(nm) > maxUp || upsAnySep(nm) > maxUp || len(nm) >= 90 {
 				nm = pick()
 			}
 			g.rep.Count("entry:collision")
